@@ -419,7 +419,8 @@ theorem anteOK_true {s : State} {t : Tx} {sim : Bool} (h : anteOK s t sim = true
           rw [List.any_eq_true] at hany
           obtain ⟨x, hx, hb⟩ := hany
           simp at hv
-          exact ⟨x, hx, by simpa [hv] using hb⟩
+          simp only [Bool.and_eq_true, beq_iff_eq] at hb
+          exact ⟨x, hx, by simpa [hv] using hb.1⟩
         · simp at hv
     rw [h5] at hkey hv
     refine ⟨hkey, h6, ?_, h8, ?_⟩
